@@ -123,34 +123,7 @@ func propC15(c *Ctx, r *Report) {
 	r.rule("C15/no-carried-state", 1, "scheduled issuance depends on the height and the database only")
 	// the burn of the minted supply touches exactly the minted tickers: address = the mint address, ticker = the
 	// table entry's, amount = the balance read for that ticker
-	r.rule("C15/mint-burn-scope", 1, "NullifyMintedTokens debits the mint table's tickers only")
-	{
-		nm := c.fn("node.Pegnetd.NullifyMintedTokens")
-		subs := c.findCallsFam(nm, "pegnet.Pegnet.SubFromBalance")
-		var bad []string
-		if len(subs) != 1 {
-			bad = append(bad, fmt.Sprintf("%d SubFromBalance call sites", len(subs)))
-		} else {
-			a := subs[0].Common().Args
-			if typePath(a[3]) != "node.MintSupply.Ticker" {
-				bad = append(bad, "the ticker debited is not the Ticker of a mint-table entry but "+stablePath(a[3], 0)+": balances of assets that were never minted are burned as well")
-			}
-			if !sliceHas(a[2], func(v ssa.Value) bool {
-				call, ok := v.(*ssa.Call)
-				return ok && shortCallee(call.Common()) == "NewFAAddress" && valuePath(call.Call.Args[0]) == "node.GlobalMintAddress"
-			}) {
-				bad = append(bad, "the address debited is not NewFAAddress(GlobalMintAddress)")
-			}
-			lk, _ := a[4].(*ssa.Lookup)
-			if ex, ok := a[4].(*ssa.Extract); ok {
-				lk, _ = ex.Tuple.(*ssa.Lookup)
-			}
-			if lk == nil || unwrapConv(lk.Index) != unwrapConv(a[3]) || !sliceHas(lk.X, func(v ssa.Value) bool { return isCallTo(v, "SelectBalances") }) {
-				bad = append(bad, "the amount debited is not the balance read for that ticker")
-			}
-		}
-		r.check(len(bad) == 0, "C15/mint-burn-scope", "NullifyMintedTokens", c.pos(nm.Pos()), "SubFromBalance(mint address, entry.Ticker, balances[entry.Ticker]) per mint-table entry", strings.Join(bad, "; "))
-	}
+	ruleMintBurnScope(c, r, "C15/mint-burn-scope")
 	// the statements of the scheduled adjustments can succeed: no parameter that database/sql refuses
 	ruleU64Params(c, r, "C15/statements-can-succeed", reachOf(c, "node.Pegnetd.MintTokensForBalance", "node.Pegnetd.NullifyMintedTokens", "node.Pegnetd.NullifyBurnAddress", "node.Pegnetd.DevelopersPayouts"), 3)
 	ruleNoCarriedReads(c, newSharedAnalysis(c), r, "C15/no-carried-state", reachOf(c, "node.Pegnetd.MintTokensForBalance", "node.Pegnetd.NullifyMintedTokens", "node.Pegnetd.NullifyBurnAddress", "node.Pegnetd.DevelopersPayouts"), carriedAllowedSync, "scheduled issuance")
@@ -583,4 +556,36 @@ func ruleDevRewards(c *Ctx, r *Report, e *eraCtx, rule string) {
 	nAdd := len(findCalls(dp, "pegnet.Pegnet.AddToBalance"))
 	r.check(nAdd == 1, rule, "one credit call site in DevelopersPayouts", c.pos(dp.Pos()), "", fmt.Sprintf("%d AddToBalance call sites", nAdd))
 
+}
+
+// ruleMintBurnScope: NullifyMintedTokens debits the mint table's tickers only (shared with C04).
+func ruleMintBurnScope(c *Ctx, r *Report, rule string) {
+	r.rule(rule, 1, "NullifyMintedTokens debits the mint table's tickers only")
+	{
+		nm := c.fn("node.Pegnetd.NullifyMintedTokens")
+		subs := c.findCallsFam(nm, "pegnet.Pegnet.SubFromBalance")
+		var bad []string
+		if len(subs) != 1 {
+			bad = append(bad, fmt.Sprintf("%d SubFromBalance call sites", len(subs)))
+		} else {
+			a := subs[0].Common().Args
+			if typePath(a[3]) != "node.MintSupply.Ticker" {
+				bad = append(bad, "the ticker debited is not the Ticker of a mint-table entry but "+stablePath(a[3], 0)+": balances of assets that were never minted are burned as well")
+			}
+			if !sliceHas(a[2], func(v ssa.Value) bool {
+				call, ok := v.(*ssa.Call)
+				return ok && shortCallee(call.Common()) == "NewFAAddress" && valuePath(call.Call.Args[0]) == "node.GlobalMintAddress"
+			}) {
+				bad = append(bad, "the address debited is not NewFAAddress(GlobalMintAddress)")
+			}
+			lk, _ := a[4].(*ssa.Lookup)
+			if ex, ok := a[4].(*ssa.Extract); ok {
+				lk, _ = ex.Tuple.(*ssa.Lookup)
+			}
+			if lk == nil || unwrapConv(lk.Index) != unwrapConv(a[3]) || !sliceHas(lk.X, func(v ssa.Value) bool { return isCallTo(v, "SelectBalances") }) {
+				bad = append(bad, "the amount debited is not the balance read for that ticker")
+			}
+		}
+		r.check(len(bad) == 0, rule, "NullifyMintedTokens", c.pos(nm.Pos()), "SubFromBalance(mint address, entry.Ticker, balances[entry.Ticker]) per mint-table entry", strings.Join(bad, "; "))
+	}
 }
